@@ -3,7 +3,7 @@ from __future__ import annotations
 
 import ast
 
-from ..astutil import attr_path, call_name, walk, src, enclosing_func
+from ..astutil import attr_path, call_name, walk, src, enclosing_func, ancestors
 from ..consteval import UNKNOWN, ClassRef
 from ..framework import rule
 from ..linexpr import Lin, atom_name, cmp_norm, lin
@@ -162,15 +162,37 @@ def d1_4(ctx):
         nb = isinstance(vals[1], ast.UnaryOp) and isinstance(vals[1].op, ast.Not) and isinstance(vals[1].operand, ast.Call) and call_name(vals[1].operand) == "issubclass" and attr_path(vals[1].operand.args[0]) == "_type.element_type" and atom_name(vals[1].operand.args[1]) == "BitArrayType"
         ok = one and nb and len(vals) == 2
     ctx.check(ok, ckey(fn, "unwrap"), un[0] if un else f, "a single element is unwrapped only when elements == 1 and the element type is not a bit array", "the single-element unwrap condition changed (lists for scalars or scalars for BOOL arrays)")
-    proj = [n for n in walk(f) if isinstance(n, ast.DictComp)]
-    ok = False
-    if len(proj) == 1:
-        d = proj[0]
+    # projection sites: the dict comprehension inline, or inside a helper of this module called with the decoded value
+    sites = []
+    for n in walk(f):
+        if isinstance(n, ast.DictComp):
+            sites.append((n, n, dtp, None))
+        elif isinstance(n, ast.Call) and isinstance(n.func, ast.Name):
+            h = ctx.model.functions.get(f"{fn.module.name}:{n.func.id}")
+            if h is not None:
+                for d in walk(h.node):
+                    if isinstance(d, ast.DictComp):
+                        params = [a.arg for a in h.node.args.args]
+                        sites.append((d, n, None, dict(zip(params, n.args))))
+    ok = bool(sites)
+    why = []
+    for d, at, dt_name, binding in sites:
         g = d.generators[0]
-        guard = getattr(getattr(d, "_parent", None), "_parent", None)
-        cond = src(guard.test).replace(" ", "").replace("(not", "not").replace("))", ")") if isinstance(guard, ast.If) else ""
-        ok = src(g.iter).replace('"', "'") == f"{dtp}['data_type']['attributes']" and atom_name(d.key) == atom_name(g.target) and src(d.value).replace(" ", "") == f"_value[{atom_name(g.target)}]" and cond == "is_structandnotissubclass(_type,StringDataType)"
-    ctx.check(ok, ckey(fn, "projection"), proj[0] if proj else f, "structure values are projected to the definition's visible attributes (strings excepted)", "structure projection to data_type['attributes'] changed")
+        it = src(g.iter).replace('"', "'")
+        if binding is not None:
+            dts = [p_ for p_, a in binding.items() if atom_name(a) == dtp]
+            dt_name = dts[0] if dts else None
+        shape = dt_name is not None and it == f"{dt_name}['data_type']['attributes']" and atom_name(d.key) == atom_name(g.target) and isinstance(d.value, ast.Subscript) and atom_name(d.value.slice) == atom_name(g.target) and not g.ifs
+        guard = next((a for a in ancestors(at) if isinstance(a, ast.If) and any(at is x for s_ in a.body for x in walk(s_))), None)
+        conj = []
+        if guard is not None:
+            conj = guard.test.values if isinstance(guard.test, ast.BoolOp) and isinstance(guard.test.op, ast.And) else [guard.test]
+        has_struct = any(atom_name(c) == "is_struct" for c in conj)
+        not_string = any(isinstance(c, ast.UnaryOp) and isinstance(c.op, ast.Not) and isinstance(c.operand, ast.Call) and call_name(c.operand) == "issubclass" and atom_name(c.operand.args[1]) == "StringDataType" for c in conj)
+        if not (shape and has_struct and not_string):
+            ok = False
+            why.append(f"{src(d)[:80]} under `{src(guard.test) if guard is not None else None}`")
+    ctx.check(ok, ckey(fn, "projection"), sites[0][0] if sites else f, "structure values are projected to the definition's visible attributes (strings excepted)", f"structure projection to data_type['attributes'] is missing, renames members or is applied to strings / non-structures: {why}")
     stream = [n for n in walk(f) if isinstance(n, ast.Assign) and atom_name(n.targets[0]) == "stream" and isinstance(n.value, ast.Call) and call_name(n.value) == "BytesIO"]
     ctx.check(len(stream) == 1, ckey(fn, "stream"), f, "one value stream per reply", "value stream construction changed")
 
@@ -390,3 +412,20 @@ def d1_9(ctx):
     use = [n for n in walk(ptr.node) if isinstance(n, ast.Assign) and isinstance(n.value, ast.Call) and (call_name(n.value) or "").endswith("get_array_index")]
     ok = len(use) == 1 and isinstance(use[0].targets[0], ast.Tuple) and [atom_name(x) for x in use[0].targets[0].elts] == ["_tag", "idx"] and atom_name(use[0].value.args[0]) == "tag"
     ctx.check(ok, ckey(ptr, "uses-helper"), use[0] if use else ptr.node, "the request's BOOL-array name and index come from one get_array_index(tag) call", "BOOL-array name and index are not taken from one get_array_index(tag) call")
+
+
+@rule(P, "D1.10", "T-FILTER", floor=2)
+def d1_10(ctx):
+    """Hidden members never reach a decoded structure value at any nesting depth: StructTag._decode (which nested members
+    decode through) returns only names outside cls.private; the reply-level projection alone covers the outermost level only."""
+    from .common import CT, structtag_visible_only
+
+    tag = ctx.model.cls(f"{CT}:StructTag.StructTag")
+    res = structtag_visible_only(ctx, tag)
+    if res is None:
+        ctx.undecided(ckey(tag.key, "_decode#visible-only"), tag.node, "StructTag._decode not found")
+        return
+    ctx.check(bool(res), ckey(tag.key, "_decode#returns"), tag.methods["_decode"], "decode returns a value", "StructTag._decode returns nothing")
+    for i, (ok, how, node) in enumerate(res):
+        ctx.check(ok, ckey(tag.key, f"_decode#visible-only{'' if not i else i}"), node, how,
+                  "StructTag._decode returns hidden (private/host) members: a structure nested in another structure or array element shows its ZZZZZZZZZZ*/CTL host members in read values")
